@@ -15,6 +15,7 @@ Quick == Tier = "quick"
 Common ==
   { <<OctKey(32, "a", NONE, NONE), "HS256">>, <<OctKey(64, "a", NONE, NONE), "HS512">>,
     <<AsymKey("rsa2048a", 0, NONE, NONE), "RS256">>, <<AsymKey("rsa2048a", 0, NONE, NONE), "PS256">>,
+    <<AsymKey("rsa2052a", 0, NONE, NONE), "RS256">>, <<AsymKey("rsa2052a", 0, NONE, NONE), "PS384">>,     \* modulus not a multiple of 8 bits
     <<AsymKey("p256a", 0, NONE, NONE), "ES256">>, <<AsymKey("p384a", 0, NONE, NONE), "ES384">>, <<AsymKey("p521a", 0, NONE, NONE), "ES512">>,
     <<AsymKey("ed25519a", 0, NONE, NONE), "EdDSA">>, <<AsymKey("ed448a", 0, NONE, NONE), "EdDSA">> }
   \cup (IF Quick THEN {} ELSE
